@@ -8,4 +8,10 @@ PROPERTIES = {
                     "status/body inputs is a complete proof",
         assumptions=["generated method template (data = self.get_data(response); return T.model_validate(data)) is covered under C04/C01 contracts, not here"],
     ),
+    "C13": dict(
+        modules=["contracts.c13_ws"],
+        explanation="frame handler outcome table (complete: loop-free), senders, and the subscription iterator with a "
+                    "prefix invariant over the server's frame sequence",
+        assumptions=["interoperability with a live websockets server beyond the call signature is outside this family"],
+    ),
 }
